@@ -461,6 +461,7 @@ def bi_sorted(e, st, args, kw, node):
                         patterns=[pinv(j), z3.Select(X.arrs[0], X.off + j)]))
     # ordering
     sc = st.fork()
+    sc.assume(0 <= i, i < n, 0 <= j, j < n)
     e.qvars.extend([i, j])
     try:
         if keyf is not None and not isinstance(keyf, VNone):
@@ -503,6 +504,7 @@ def bi_itertools_groupby(e, st, args, kw, node):
     grp = z3.Function(fresh_name('grp'), z3.IntSort(), z3.IntSort())
     g, h, t = z3.Int(fresh_name('g')), z3.Int(fresh_name('h')), z3.Int(fresh_name('t'))
     sc = st.fork()
+    sc.assume(0 <= t, t < n, 0 <= g, g < G, 0 <= b(g), b(g) < n, 0 <= b(g + 1), b(g + 1) <= n)
 
     def keyterm(x):
         v = key_term(e, sc, keyf, x)
